@@ -158,7 +158,7 @@ def thorough_configs(prop_id, extra_files=()):
     lad = ladder_for(prop_id, extra_files)
     out = []
     seen = set()
-    for c in list(lad['cover']) + configs.thorough_lattice():
+    for c in list(lad['cover']) + [configs.parse(n) for n in configs.LANDMARKS] + configs.thorough_lattice_small():
         k = configs.closure(c)
         if k in seen:
             continue
